@@ -2,6 +2,11 @@
 """Regenerates MANIFEST.json from the table below (run after adding a property)."""
 import json, subprocess
 CLAIMED = {
+ "C06": dict(
+   text="Exhaustive route x type-pair x boundary-value matrix (assignment, by-value parameter, FOR initial value, function result, array element, record field, READ, INPUT; + - * over boundary pairs; unary minus on the minima) with an exact expectation per observation (exactly rounded value, ties either way, or Overflow at that statement), and a value-level typed-variable invariant evaluated at every statement boundary of every run (matrix and random programs) through the tick hook.",
+   note="Trusted: exact quarter-unit arithmetic of the expectation; the hook's variable dump; f32/f64 parsing of printed values. Known unguarded INTEGER/LONG arithmetic is attributed to its finding.",
+   technique="exhaustive boundary-value enumeration + invariant checking over generated programs (proptest)",
+   design="6/C06"),
  "C04": dict(
    text="Differential testing of generated declaration + store/read/by-reference-store sequences over arrays (1-3 dimensions, negative lower bounds), records, nested records and fixed-length strings against a map model; every element and field is printed after the sequence, and an access outside a chosen face of the index box must raise Subscript out of range and nothing else.",
    note="Trusted: the map model in the reference semantics, the IR printer. Ties in fractional subscripts are never generated.",
